@@ -33,6 +33,8 @@ META = {
     "technique": "Hypothesis over (server program, message) + enumeration of notification names; oracle = independent JSON-RPC grammar and documented error codes",
 }
 
+ARG_NAMES = ["self", "cls", "func", "fn", "f", "label", "name", "handler", "args", "kwargs", "message", "msg", "session_id", "tool_name", "tool", "arguments", "timeout", "callback", "key", "value",
+             "ctx", "context", "request", "params", "method", "id", "uri", "type", "data", "result", "error", "start", "loop", "task", "coro", "kind", "k", "kw", "x", "_", "__class__", "class", "def", "é"]
 HANDLER_KINDS = ["str", "dict", "list", "int", "none", "object", "raise_value", "raise_runtime", "raise_key", "needs_arg", "nested_bad_json", "slow_str", "raise_slow",
                  "raise_code_int", "raise_code_str", "raise_code_none", "raise_code_callable", "raise_code_jsonrpc"]
 
@@ -312,7 +314,8 @@ def check_concurrent(case: Dict[str, Any]) -> Outcome:
             out.nontrivial = False
             return out
     same = len({(m["method"], json.dumps(m.get("params"), sort_keys=True, default=str)) for m in msgs}) < len(msgs)
-    out.classes = ("concurrent-dispatch", f"in-flight:{len(msgs)}", "same-method-and-arguments" if same else "different-targets")
+    ids_ = [json.dumps(m["id"]) for m in msgs if "id" in m]
+    out.classes = ("concurrent-dispatch", f"in-flight:{len(msgs)}", "same-method-and-arguments" if same else "different-targets") + (("same-id-on-two-connections",) if len(set(ids_)) < len(ids_) else ())
     results: List[Any] = [None] * len(msgs)
 
     async def one(k: int):
@@ -563,7 +566,8 @@ def cases(draw):
     ))
     if method == "tools/call":
         name = draw(st.one_of(st.sampled_from([f"tool{i}" for i in range(4)]), st.sampled_from([None, 5, 1.5, True, ["tool0"], {"a": 1}, "", "nope"])))
-        args = draw(st.one_of(st.just("$omit"), st.just({}), st.just({"x": 1}), st.just({"x": "s"}), st.just({"y": 1}), st.none(), st.just([1]), st.just("str"), json_objects(4)))
+        args = draw(st.one_of(st.just("$omit"), st.just({}), st.just({"x": 1}), st.just({"x": "s"}), st.just({"y": 1}), st.none(), st.just([1]), st.just("str"), json_objects(4),
+                              st.dictionaries(st.sampled_from(ARG_NAMES), st.integers(0, 3), min_size=1, max_size=3)))
         params: Any = {"name": name}
         if args != "$omit":
             params["arguments"] = args
@@ -594,7 +598,7 @@ def cases(draw):
         for k in range(draw(st.integers(2, 4))):
             m = dict(draw(st.sampled_from(pool)), how=draw(st.sampled_from(["parse", "unified", "specific"])), delay=draw(st.sampled_from([0.0, 0.0, 0.01, 0.02, 0.03])))
             if not m["method"].startswith("notifications/") or draw(st.integers(0, 4)) == 0:
-                m["id"] = ids[k]
+                m["id"] = ids[k] if draw(st.integers(0, 3)) else ids[0]
             msgs.append(m)
         return {"server": prog, "concurrent": msgs}
     if draw(st.integers(0, 3)) == 0:
@@ -648,6 +652,14 @@ def job_handlers(col: Collector, seed: int, tier: str) -> None:
                 if rid is not None:
                     case["id"] = rid
                 col.record(case, check(case))
+    # argument names a tool may well declare and a dispatcher's own helpers may use too: they are the tool's, whatever they are called
+    for an in ARG_NAMES:
+        for kind in ("str", "dict"):
+            for val in (1, "v"):
+                case = {"server": {"tools": [kind], "resources": [], "custom": []}, "method": "tools/call", "params": {"name": "tool0", "arguments": {an: val}}, "how": "parse", "id": 1}
+                col.record(case, check(case))
+        case = {"server": {"tools": ["str"], "resources": [], "custom": []}, "method": "tools/call", "params": {"name": "tool0", "arguments": {a_: 1 for a_ in ARG_NAMES}}, "how": "specific", "id": "all"}
+        col.record(case, check(case))
     # what the exception says: every (type, text) pair from each of the three kinds of handler
     for k in RAISE_MSG_KINDS:
         for rid in (1, "a"):
@@ -678,6 +690,13 @@ def job_concurrent(col: Collector, seed: int, tier: str) -> None:
                 ids = idsets[n % 3]
                 hows = ["parse", "unified", "specific"]
                 msgs = [dict(a, id=ids[0], how=hows[n % 3], delay=delays[0]), dict(b, id=ids[1], how=hows[(n + 1) % 3], delay=delays[1]), dict(a, id=ids[2], how=hows[(n + 2) % 3], delay=delays[2])]
+                case = {"server": prog, "concurrent": msgs}
+                col.record(case, check(case))
+    # request ids are unique per connection only: two connections of one server may have the same id in flight
+    for a in targets[:8]:
+        for rid in (0, 1, "a", -7):
+            for delays in ((0.0, 0.0), (0.0, 0.01), (0.01, 0.0)):
+                msgs = [dict(a, id=rid, how="parse", delay=delays[0]), dict(a, id=rid, how="specific", delay=delays[1]), dict(targets[8], id=rid, how="parse", delay=0.005)]
                 case = {"server": prog, "concurrent": msgs}
                 col.record(case, check(case))
     # the first of the group is a notification (no id to give away)
